@@ -28,6 +28,9 @@ type TraceStep struct {
 	Op   string `json:"op"`
 	Pos  string `json:"pos,omitempty"` // file:line of the visible operation itself
 	Step int    `json:"step"`          // global step number of the model
+	// Sel: for a step that is a blocking select: 1 + index of the communication the model chose
+	// (0: not a select)
+	Sel int `json:"sel,omitempty"`
 }
 
 // EnvCancel: the environment cancels the context armed by the Occ-th vrt.CancelAnytime call of
@@ -82,6 +85,9 @@ type thr struct {
 	asyncEv *event
 	gid     int64
 	idx     int // number of children the parent had spawned before this one
+	// selStmt/selChoice: the select statement of the step just granted and the case the model chose
+	selStmt   string
+	selChoice int
 }
 
 // wakeUp grants the thread (starting the goroutine of a timer callback first).
@@ -247,6 +253,39 @@ func Yield(id string) {
 	t.parkedAt = id
 	events <- event{t, "park", id}
 	<-t.wake
+}
+
+// selOther reports whether the calling goroutine has just been granted a select step at
+// statement id for which the model chose a communication other than i.
+func selOther(id string, i int) bool {
+	if !active {
+		return false
+	}
+	t := self()
+	if t == nil {
+		return false
+	}
+	mu.Lock()
+	defer mu.Unlock()
+	return t.selStmt == id && t.selChoice >= 0 && t.selChoice != i
+}
+
+// SelRecv wraps the channel of the i-th communication of the select statement id: during a
+// replay the cases the model did not choose are disabled (nil channel), because Go picks at
+// random among the ready ones.
+func SelRecv[T any](id string, i int, ch <-chan T) <-chan T {
+	if selOther(id, i) {
+		return nil
+	}
+	return ch
+}
+
+// SelSend is SelRecv for a send communication.
+func SelSend[T any](id string, i int, ch chan<- T) chan<- T {
+	if selOther(id, i) {
+		return nil
+	}
+	return ch
 }
 
 // Go is the instrumented form of the go statement.
@@ -494,6 +533,12 @@ func Run(tracePath string, entry func()) Result {
 		t.future = future
 		t.curStmt = st.Stmt
 		t.parkedAt = ""
+		mu.Lock()
+		t.selStmt, t.selChoice = "", -1
+		if st.Sel > 0 {
+			t.selStmt, t.selChoice = st.Stmt, st.Sel-1
+		}
+		mu.Unlock()
 		fireEnv(st.Step)
 		got := false
 		if t.inOp {
